@@ -1370,6 +1370,10 @@ func (val Value) LessThan(other Value) Value {
 		return (*shortCircuit).RefineNotNull()
 	}
 
+	if rawNumberEqual(val.v.(*big.Float), other.v.(*big.Float)) {
+		// Numbers that Equals considers equal are never less than one another.
+		return False
+	}
 	return BoolVal(val.v.(*big.Float).Cmp(other.v.(*big.Float)) < 0)
 }
 
@@ -1409,6 +1413,10 @@ func (val Value) GreaterThan(other Value) Value {
 		return (*shortCircuit).RefineNotNull()
 	}
 
+	if rawNumberEqual(val.v.(*big.Float), other.v.(*big.Float)) {
+		// Numbers that Equals considers equal are never greater than one another.
+		return False
+	}
 	return BoolVal(val.v.(*big.Float).Cmp(other.v.(*big.Float)) > 0)
 }
 
